@@ -458,7 +458,11 @@ def class_of(clause, trows, upto, e):
         running = e.get("running") or []
         nested = [k for k in running if not k.endswith("?")]
         ops = applied_ops(trows, upto)
-        unreachable = e.get("gone") or e.get("down") or any(r.get("ev") == "ctr.close.end" for r in trows[:upto])
+        # the nested request or its answer cannot travel any more: the client is gone, the network is down, the client has
+        # closed, or an exchange was cut and the client has not resumed it (the request then sits in the event store / is
+        # refused for ever) - in every case nothing retires the server->client call, which is the recorded defect
+        unreachable = (e.get("gone") or e.get("down") or any(r.get("ev") == "ctr.close.end" for r in trows[:upto])
+                       or any(o in ("cutpost", "cutget") for o in ops))
         if nested and "sreq" in ops and unreachable:
             return "class:handler-awaits-nested-call-to-unreachable-client"
     return None
